@@ -567,21 +567,58 @@ def coq_mismatches(uid, imports, case_terms, shard=100, mism="mismatches",
     must return list (N * list N) = (case index, disagreeing op indices).
     Returns (ok, [(case_index, [op indices])], logs)."""
     from concurrent.futures import ThreadPoolExecutor
-    shards = [(i, case_terms[i:i + shard]) for i in range(0, len(case_terms), shard)]
+    # shards are bounded by case count AND by term text size (coqc's memory grows
+    # with the size of the parsed term: a 60 GB box was OOM-killed by 16 shards
+    # of several MB each); a shard that is killed or times out is split in two
+    # and retried, so that memory pressure never turns into a verdict.
+    MAXTXT = 1200000
+    shards, cur, cur_sz, base0 = [], [], 0, 0
+    for i, t in enumerate(case_terms):
+        if cur and (len(cur) >= shard or cur_sz + len(t) > MAXTXT):
+            shards.append((base0, cur))
+            cur, cur_sz, base0 = [], 0, i
+        cur.append(t)
+        cur_sz += len(t)
+    if cur:
+        shards.append((base0, cur))
 
-    def one(arg):
-        base, terms = arg
+    def mem_workers():
+        try:
+            for ln in open("/proc/meminfo"):
+                if ln.startswith("MemAvailable"):
+                    return max(2, min(NCPU, int(ln.split()[1]) // (3 * 1024 * 1024)))
+        except OSError:
+            pass
+        return NCPU
+
+    def one_raw(base, terms, tmo):
         txt = imports + "\n"
         if scope:
             txt += "Local Open Scope %s.\n" % scope
         txt += "Definition cases := [\n" + ";\n".join(terms) + "\n].\n"
         txt += "Definition M := Eval vm_compute in %s cases %d%%N.\n" % (mism, base)
         txt += "Set Printing Width 1000000.\nSet Printing Depth 1000000.\nPrint M.\n"
-        rc, out = coqc_eval("cases_%s_%d" % (uid, base), txt, timeout=timeout)
+        return coqc_eval("cases_%s_%d" % (uid, base), txt, timeout=tmo)
+
+    def one(arg):
+        base, terms = arg
+        rc, out = one_raw(base, terms, timeout)
+        if rc in (-9, 137, 124) or "Out of memory" in out or "Stack overflow" in out:
+            if len(terms) > 1:
+                h = len(terms) // 2
+                b1, rc1, out1 = one((base, terms[:h]))
+                b2, rc2, out2 = one((base + h, terms[h:]))
+                if rc1 == 0 and rc2 == 0:
+                    l1 = parse_coq_list_result(out1, "M")
+                    l2 = parse_coq_list_result(out2, "M")
+                    if l1 is not None and l2 is not None:
+                        items = [x.strip()[1:-1].strip() for x in (l1, l2)]
+                        return base, 0, "M = [" + "; ".join(x for x in items if x) + "]\n     : list"
+                return base, (rc1 or rc2), out1[-1500:] + out2[-1500:]
         return base, rc, out
 
     bad, logs, ok = [], [], True
-    with ThreadPoolExecutor(max_workers=NCPU) as ex:
+    with ThreadPoolExecutor(max_workers=mem_workers()) as ex:
         for base, rc, out in ex.map(one, shards):
             if rc != 0:
                 ok = False
